@@ -24,7 +24,7 @@ import CqlVerif.Drv.Late
 import CqlVerif.Drv.Cfg
 open CqlVerif.Drv
 
-def dispatch (stream op real : String) : Verdict :=
+def dispatchStream (stream op real : String) : Verdict :=
   match stream with
   | "lb" => LBStream.handle op real
   | "names" => NamesStream.handle op real
@@ -51,6 +51,12 @@ def dispatch (stream op real : String) : Verdict :=
   | "late" => LateStream.handle op real
   | "cfg" => CfgStream.handle op real
   | _ => { kind := "diff", detail := s!"unknown stream {stream}" }
+
+/-- the harness could not set the case up (no port, no connection): that says nothing about the code -/
+def dispatch (stream op real : String) : Verdict :=
+  if real.startsWith "env-error" || real.startsWith "dial-error" || (real.splitOn "address already in use").length > 1 then
+    { kind := "diff", sig := "harness", key := "harness:environment", detail := real }
+  else dispatchStream stream op real
 
 partial def loop (h : IO.FS.Stream) (out : IO.FS.Stream) : IO Unit := do
   let line ← h.getLine
